@@ -2,6 +2,7 @@ package c16sim
 
 import (
 	"strings"
+	"time"
 
 	"github.com/runreveal/pql/parser"
 )
@@ -54,8 +55,13 @@ func replaceRange(c Case, a, b int, repl []byte) Case {
 // Minimise greedily reduces a violating case while the same violation class persists.
 func Minimise(h Hooks, c Case, class string, maxAttempts int) (Case, int) {
 	attempts := 0
+	if class == "tool-does-not-terminate" {
+		// every reproducing attempt leaves a goroutine that never returns: do not minimise in-process
+		return c.Clone(), 0
+	}
+	deadline := time.Now().Add(90 * time.Second) // bounds the minimiser only; decides nothing
 	still := func(cand Case) bool {
-		if attempts >= maxAttempts {
+		if attempts >= maxAttempts || time.Now().After(deadline) {
 			return false
 		}
 		attempts++
